@@ -468,7 +468,8 @@ def process_slice(ctx, tasks, acc, ok_build, scan_sel):
 
 
 def run(ctx):
-    ok_build = ctx.lean_stage([], ["Verif.Props.C04"])
+    ok_build = ctx.lean_stage([], ["Verif.Props.C04", "Verif.Props.Coalesce"])
+    ctx.block("coalescelib", "coalesce")        # coalesce pass preserves well-formedness (coalesce_preserves_wf)
     if not ok_build:
         ctx.broken.append("lake build failed: the monitor cannot be run")
     tasks = build_pools(ctx)
